@@ -15,7 +15,8 @@
    commute L D1 D1' D2 D2' | T1 | T2
         the hypothesis of `order_indep_of_commute` for one step, exactly: "true" / "false"
    hist cls kind | s k id | g k | …
-        `objTrace` with the regenerated memoisation wiring of cls ∈ {simple, file}, kind ∈ {mpo, cap}:
+        `objTrace` with the regenerated memoisation wiring of cls ∈ {simple, file}, kind ∈ {mpo, cap,
+        capsflag (s 0 id = a tensor write giving tensor-list version id, g 0 = compute_caps + read)}:
         which stored version each call answers with ("-": None) -/
 import OQuPyVerif.Model.ProtoQI
 import OQuPyVerif.Model.MultiEnv
@@ -229,7 +230,9 @@ def runHist (ws : List String) : Option String := do
     if cls == "simple" && kind == "mpo" then some simpleMpoCache
     else if cls == "simple" && kind == "cap" then some simpleCapCache
     else if cls == "file" && kind == "mpo" then some fileMpoCache
-    else if cls == "file" && kind == "cap" then some fileCapCache else none
+    else if cls == "file" && kind == "cap" then some fileCapCache
+    else if cls == "simple" && kind == "capsflag" then some simpleCapsFlag
+    else if cls == "file" && kind == "capsflag" then some fileCapsFlag else none
   let ops ← (secs.drop 1).mapM (fun s => match s with
     | ["s", k, v] => do pure (PtOp.set (← k.toNat?) (← v.toNat?))
     | ["g", k] => do pure (PtOp.get (← k.toNat?))
